@@ -29,7 +29,8 @@ pub enum T {
 pub struct Member {
     pub shape: String,
     pub expr: Expr,
-    pub expanded: Expr,
+    /// let-expanded form (None where the binding is NOT generalised by gluon: pattern bindings)
+    pub expanded: Option<Expr>,
     /// well-typed by construction?
     pub typed: bool,
 }
@@ -216,9 +217,15 @@ pub fn family() -> Vec<Member> {
             for t in [T::Int, T::Str] {
                 for wrapper in 0..3 {
                     for d in 0..6 {
-                        for gform in 0..2 {
+                        for gform in 0..4 {
                             for outer in 0..3 {
                                 for extra in 0..3 {
+                                    // binding forms 2 (right-hand side is an APPLICATION: no value
+                                    // restriction in gluon, still generalised) and 3 (bound through a
+                                    // tuple PATTERN: not generalised by gluon) only with the plain `f`
+                                    if gform >= 2 && !(outer == 0 && extra == 0) {
+                                        continue;
+                                    }
                                     out.push(member(kind, linked, t, wrapper, d, gform, outer, extra));
                                 }
                             }
@@ -262,13 +269,27 @@ fn member(kind: &str, linked: bool, t: T, wrapper: usize, d: usize, gform: usize
         }
     };
     let dexpr = if d < 4 { tup(vec![use_g(t1, 0), use_g(t2, 1)]) } else { use_g(t1, 0) };
-    let typed = if linked { t1 == t && t2 == t } else { true };
+    let typed = if gform == 3 {
+        // `let (g, _) = (\a -> …, 0)`: pattern-bound names stay monomorphic in gluon
+        t1 == t2 && (!linked || t1 == t)
+    } else if linked {
+        t1 == t && t2 == t
+    } else {
+        true
+    };
     let g_lam = lam(&["a"], body.clone());
     let build = |dexpr: Expr| -> Expr {
-        let with_g = if gform == 0 {
-            Expr::LetFun("g".into(), vec!["a".into()], b(body.clone()), b(dexpr))
-        } else {
-            let_("g", g_lam.clone(), dexpr)
+        let with_g = match gform {
+            0 => Expr::LetFun("g".into(), vec!["a".into()], b(body.clone()), b(dexpr)),
+            1 => let_("g", g_lam.clone(), dexpr),
+            // not a syntactic value: `let g = (\i -> i) (\a -> …)`
+            2 => let_("g", app(lam(&["i"], v("i")), vec![g_lam.clone()]), dexpr),
+            // bound by a pattern: `let (g, _) = (\a -> …, 0)`
+            _ => Expr::Let(
+                Pat::Tup(vec![Pat::Var("g".into()), Pat::Wild]),
+                b(tup(vec![g_lam.clone(), Expr::Int(0)])),
+                b(dexpr),
+            ),
         };
         let fbody = pre.iter().rev().fold(with_g, |acc, (n, e)| let_(n, e.clone(), acc));
         let (params, args): (Vec<&str>, Vec<Expr>) = match extra {
@@ -283,7 +304,7 @@ fn member(kind: &str, linked: bool, t: T, wrapper: usize, d: usize, gform: usize
         }
     };
     let expr = build(dexpr.clone());
-    let expanded = build(subst_g(&dexpr, &g_lam));
+    let expanded = if gform == 3 { None } else { Some(build(subst_g(&dexpr, &g_lam))) };
     Member {
         shape: format!(
             "{}:{}:{}:w{}:d{}:g{}:o{}:x{}",
